@@ -248,7 +248,7 @@ def check(case, ctx):
                             # empty spectrum: nothing can match
                             st, got = lib.call(p.get_fragment_matches, list(chosen), [], [], tol, typ, mode)
                             ctx.evals += 1
-                            if st == 'ok' and len(got) != 0:
+                            if st != 'ok' or len(got) != 0:
                                 ctx.fail('fragment-matches-empty', [], got, call=[case['fr'], [], tol, typ, mode])
                             continue
                         st, got = lib.call(p.get_fragment_matches, list(chosen), list(mzs), list(ints), tol, typ, mode)
